@@ -11,6 +11,7 @@ from mypy.fscache import FileSystemCache
 from mypy.modulefinder import (
     PYTHON_EXTENSIONS,
     BuildSource,
+    find_gitignores,
     matches_exclude,
     matches_gitignore,
     mypy_path,
@@ -36,6 +37,8 @@ def create_source_list(
     """
     fscache = fscache or FileSystemCache()
     finder = SourceFinder(fscache, options)
+    # .gitignore files may have changed since an earlier build in the same process.
+    find_gitignores.cache_clear()
 
     sources = []
     for path in paths:
